@@ -2,6 +2,7 @@
 billiard/pool.py by differential correspondence on fake-process histories."""
 from vlib import core
 from props import poolcommon as pc
+from props import C03 as worker
 
 MANIFEST = dict(
     text='Theorems: a supervision pass that does not raise brings the worker list to exactly max(configured size, still-alive workers); a fresh in-range slot index always exists below size (pigeonhole) and is unused; workers are only started by supervision; an exit of a worker owning no unfinished job changes no job.',
@@ -14,11 +15,17 @@ FOCUS = {'exit': 10, 'tick': 14, 'grow': 3, 'shrink': 3, 'apply': 8, 'ack': 8}
 
 
 def run(res):
-    res.proof_step('Props/C09.v', extra_targets=['Model/Pool.vo'], kernels_needed=['G_pool_shape'])
+    res.proof_step('Props/C09.v', extra_targets=['Model/Pool.vo', 'Model/Worker.vo'], kernels_needed=['G_pool_shape', 'K_worker'])
     n = 150 if res.tier == 'quick' else 6000
     if res.broken:
         n = max(n, 1500)      # failing-input search on the implementation
     pc.pool_check(res, 'C09', n, focus=FOCUS)
+    # the per-child task quota is the worker loop's business: the real Worker.workloop against
+    # the worker model (quota, recycle status, what counts as an executed job)
+    before = len(res.alarms)
+    worker.correspond(res, 120 if res.tier == 'quick' else 4000)
+    for a in res.alarms[before:]:
+        a['signature'] = a['signature'].replace('C03:', 'C09:worker-')
     pc.real_scenarios(res, 'C09', [dict(kind='recycle', n=2, maxtasks=2, jobs=12)] if res.tier == 'quick' else [dict(kind='recycle', n=n, maxtasks=m, jobs=6 * n * m, watchdog=90) for n in (1, 2, 4) for m in (1, 2, 3)])
     res.assumptions += pc_assumptions()
 
